@@ -103,3 +103,41 @@ Definition ren_op (rho : nat -> nat) (o : op) : op :=
 Definition ren (rho : nat -> nat) (i : instr) : instr := mkI (ren_op rho (iop i)) (iqs i) (ics i).
 
 Definition quotient (re : renv) (c : circ) : circ := map (ren (canon_handle re)) c.
+
+(* ---- instruction shapes Python can build, and the splice without index defaults ---- *)
+(* QuantumCircuit.append enforces the arity of the operation; SingleQubitQPDGate._set_qubit_id enforces
+   qubit_id < basis.num_qubits <= 2.  (On a ONE-qubit basis qubit_id must be 0; the handle-based benv does not record
+   the qubit count — the canonical form of a one-qubit basis has empty second lists — so that part of the invariant is
+   only expressible in the object model: shape_ok_r.) *)
+Definition shape_ok (i : instr) : bool :=
+  match iop i with
+  | Qpd2 _ _ _ => Nat.eqb (length (iqs i)) 2
+  | Qpd1 _ h _ _ => Nat.eqb (length (iqs i)) 1 && Nat.ltb h 2
+  | _ => true
+  end.
+Definition wf_shape (c : circ) : bool := forallb shape_ok c.
+
+Definition shape_ok_r (re : renv) (i : instr) : bool :=
+  shape_ok i &&
+  match iop i with
+  | Qpd2 b _ _ => Nat.eqb (rnq (basis_at re b)) 2          (* TwoQubitQPDGate.__init__: basis.num_qubits == 2 *)
+  | Qpd1 b h _ _ => Nat.ltb h (rnq (basis_at re b))        (* _set_qubit_id *)
+  | _ => true
+  end.
+
+(* what stands at the place of one instruction, with the qubits taken by pattern matching on the qubit list and the
+   map by nth_error: no default value can be "placed" *)
+Definition on_qubit (q : nat) (ops : list bop) : list instr := map (fun o => mkI (of_bop o) [q] []) ops.
+Definition splice_strict (env : benv) (i : instr) : list instr :=
+  match iop i, iqs i with
+  | Qpd2 b (Some m) _, [q0; q1] =>
+      match nth_error (nth b env []) m with
+      | Some mp => on_qubit q0 (fst mp) ++ on_qubit q1 (snd mp)
+      | None => [i]
+      end
+  | Qpd1 b 0 (Some m) _, [q] =>
+      match nth_error (nth b env []) m with Some mp => on_qubit q (fst mp) | None => [i] end
+  | Qpd1 b 1 (Some m) _, [q] =>
+      match nth_error (nth b env []) m with Some mp => on_qubit q (snd mp) | None => [i] end
+  | _, _ => [i]
+  end.
